@@ -3,6 +3,7 @@
 package req
 
 import (
+	"bufio"
 	"bytes"
 	"io"
 	"math/rand"
@@ -15,6 +16,8 @@ import (
 
 	"github.com/imroc/req/v3/internal/verifh"
 )
+
+func bufioReader(s string) *bufio.Reader { return bufio.NewReader(strings.NewReader(s)) }
 
 // ---- generators shared by the C17 lanes ---------------------------------------------------
 
